@@ -36,10 +36,11 @@ type irRule struct {
 }
 
 type irGroup struct {
-	Line  int
-	Name  string
-	Tags  []string
-	Rules []*irRule
+	Line    int
+	Name    string
+	Tags    []string
+	Imports map[string]string // name -> path (m.Import in the rule source)
+	Rules   []*irRule
 }
 
 func litString(e ast.Expr) string {
@@ -127,7 +128,11 @@ func readRuleData(repo string) ([]*irGroup, error) {
 	var out []*irGroup
 	for _, gcl := range elts(kvs(file)["RuleGroups"]) {
 		gm := kvs(gcl)
-		g := &irGroup{Line: litInt(gm["Line"]), Name: litString(gm["Name"])}
+		g := &irGroup{Line: litInt(gm["Line"]), Name: litString(gm["Name"]), Imports: map[string]string{}}
+		for _, icl := range elts(gm["Imports"]) {
+			im := kvs(icl)
+			g.Imports[litString(im["Name"])] = litString(im["Path"])
+		}
 		if t, ok := gm["DocTags"].(*ast.CompositeLit); ok {
 			for _, e := range t.Elts {
 				g.Tags = append(g.Tags, litString(e))
